@@ -230,7 +230,9 @@ impl<'a> FollowFileExecutor<'a> {
             let output = self.execution_engine.execute(input_line, &ExecutionConfig::default())?;
             if let Some(result_row) = output.result_row {
                 if output.updated {
+                    // The screen is cleared, what follows is a table of its own
                     print!("\x1B[2J\x1B[1;1H");
+                    self.output_printer.start_table();
                 }
 
                 self.output_printer.print(&result_row, output.updated);
@@ -262,6 +264,11 @@ impl<T: Printer> OutputPrinter<T> {
 
     pub fn printer(&self) -> &T {
         &self.printer
+    }
+
+    /// Starts a new table: the next record is the first one again (a CSV header precedes it)
+    pub fn start_table(&mut self) {
+        self.first_line = true;
     }
 
     pub fn print(&mut self, result_row: &ResultRow, single_result: bool) {
